@@ -222,6 +222,31 @@ class EmptyProblems(Exception):
         return 0
 
 
+class OwnStrError(Exception):
+    """an error class that renders itself (its own __str__), like KeyError, OSError, a parser's error with a position"""
+    def __init__(self, code=0):
+        Exception.__init__(self, 'own-str failure %d' % code)
+        self.code = code
+
+    def __str__(self):
+        return 'E%03d: %s (see the log)' % (self.code, self.args[0])
+
+
+def _a_keyerror(code=0):
+    return KeyError('key%d' % code)
+
+
+def _an_oserror(code=0):
+    return OSError(2, 'no such thing %d' % code)
+
+
+def _a_decode_error(code=0):
+    return UnicodeDecodeError('utf-8', b'ab\xff%d' % code, 2, 3, 'invalid start byte')
+
+
+OWN_STR_ERRORS = [OwnStrError, _a_keyerror, _an_oserror, _a_decode_error]
+
+
 class QuietGlomError(GlomError):
     def __init__(self, code=0):
         GlomError.__init__(self, 'quiet failure %d' % code)
@@ -267,7 +292,8 @@ def _plain(v, depth=0):
 
 FAIL_KINDS = ['missing-path', 'failing-T', 'raising-callable', 'match-type', 'check', 'exhausted-coalesce', 'missing-attr',
               'exhausted-coalesce-skip', 'list-segment', 'raises-after-recovered-child', 'exhausted-coalesce-of-T',
-              'long-target-without-a-usable-len', 'user-glomerror-kwonly', 'raises-falsy-error', 'raises-falsy-glomerror', 'switch-default-fails']
+              'long-target-without-a-usable-len', 'user-glomerror-kwonly', 'raises-falsy-error', 'raises-falsy-glomerror', 'switch-default-fails',
+              'raises-error-with-its-own-str']
 
 
 class SpecGen:
@@ -304,6 +330,10 @@ class SpecGen:
                 return BoomFn(n, EmptyProblems)
             if k == 'raises-falsy-glomerror':
                 return BoomFn(n, QuietGlomError)
+            if k == 'raises-error-with-its-own-str':
+                # the class of the error raised renders itself: KeyError (repr of the key), OSError ([Errno ..]), a decoding error,
+                # a user's class with a __str__ of its own
+                return BoomFn(n, self.rng.choice(OWN_STR_ERRORS))
             if k == 'switch-default-fails':
                 # no case of the Switch applies and its default - a spec - fails: the failed keys are its attempted branches, the
                 # default's failure is what is raised
@@ -317,7 +347,11 @@ class SpecGen:
             if k == 'raises-after-recovered-child':
                 # a spec that evaluates a child and then raises ON ITS OWN, the child being a branching spec that recovered
                 rec = self.rng.choice([lambda: Coalesce('zz%d' % n, T['yy%d' % n], T), lambda: Or('zz%d' % n, T),
-                                       lambda: Coalesce('zz%d' % n, default=3.5)])()
+                                       lambda: Coalesce('zz%d' % n, default=3.5), lambda: Coalesce('zz%d' % n, default_factory=list),
+                                       lambda: Coalesce('zz%d' % n, T['yy%d' % n], default_factory=dict), lambda: Not('zz%d' % n),
+                                       lambda: Not(('a', 'zz%d' % n)), lambda: Or('zz%d' % n, default=None),
+                                       lambda: Coalesce(OkFn(self.tag()), 'zz%d' % n, skip=lambda v: True, default=3.5),
+                                       lambda: Match('zz%d' % n, default=n), lambda: Check('zz%d' % n, default=n)])()
                 return self.rng.choice([lambda: Check(rec, type=complex), lambda: Not(rec), lambda: Check(rec, equal_to=-n),
                                         lambda: Flatten(rec)])()
             if k == 'long-target-without-a-usable-len':
@@ -544,6 +578,16 @@ def check_message(col, msg, root, target, desc, key, width):
             return col.violation('C05/spec-after-the-failing-spec-not-nested-in-it',
                                  '%s: after the failing spec %s the trace lists %r, which was not evaluated inside it\n%s'
                                  % (desc, short(fmt_full(failing.spec), 100), ln.text, msg), wit)
+    # ... and none of them belongs to a direct child of the failing spec that COMPLETED (returned a value): whatever failed inside
+    # such a child was recovered from - the failing spec raised on its own account afterwards - and is not on the way to the failure
+    raised_children = [f for ch in failing.children if ch.outcome == 'raise' for f in all_frames(ch)]
+    for j in range(pos + 1, len(flow_specs) if not ambiguous else 0):
+        ln = flow_specs[j][1]
+        col.count('flow_lines_after_the_failing_spec')
+        if not any(matches(ln.text, f.spec) for f in raised_children):
+            return col.violation('C05/trace-continues-into-a-child-that-completed',
+                                 '%s: the spec that failed is %s, but the trace goes on with %r: a sub-spec that returned a value (what failed '
+                                 'inside it was recovered from)\n%s' % (desc, short(fmt_full(failing.spec), 100), ln.text, msg), wit)
     # (4) the target the failing spec received
     fi = flow_specs[pos][0]
     tline = next((flow[i] for i in range(fi, -1, -1) if flow[i].kind == 'Target'), None)
